@@ -404,13 +404,20 @@ def _winseq(v, params):
         cps = set()
         i = 0
         chars = []
+        both = False
         while i < len(body):
             if body[i] == '\\' and i + 1 < len(body):
-                chars.append(body[i + 1])
+                if body[i + 1] == '\\':
+                    # an *escaped backslash* is a separator and does stand for both (this works; not part of the finding)
+                    both = True
+                else:
+                    chars.append(body[i + 1])
                 i += 2
             else:
                 chars.append(body[i])
                 i += 1
+        if both:
+            cps.update((0x2f, 0x5c))
         j = 0
         while j < len(chars):
             if j + 2 < len(chars) and chars[j + 1] == '-':
